@@ -1,3 +1,4 @@
+import BarterModel.Model.ExecMap
 /-!
 # Execution manager (C07) — concrete model and abstract spec
 
@@ -407,5 +408,129 @@ def echoes (c : Cfg) (q : ReqSpec) : Bool :=
 strategy, client order id. -/
 def Event.ident (e : Event) : Kind × Key := (e.kind, e.key)
 def Req.ident (r : Req) : Kind × Key := (r.spec.kind, r.spec.key)
+
+/-! ## Observed components added after the oracle audit (`audit/oracle/C07.md`, C07-H1 / C07-H2)
+
+Two things the transition system above abstracts away are observable on the real code and are
+modelled here, next to (not inside) `State` / `Event`, so that every theorem about the transition
+system keeps its statement:
+
+* the request the manager **hands to the client** when it takes a request in (`forwardOf`):
+  `indexer.order_request(&request)` (manager.rs:246-251, 261-266 → indexer.rs:233-263), modelled by
+  the C04 model of exactly that call site (`ExecMap.managerClientRequest`) on the
+  `ExecutionInstrumentMap` this manager is configured with (`Cfg.emap`);
+* the **payload** of the client's answer (`Open { id, time_exchange, filled_quantity }`,
+  `Cancelled { id, time_exchange }`, the text / exchange inside an error) and what of it the emitted
+  account event carries (`detailOf`): `process_open_response` (manager.rs:363-397) and
+  `order_response_cancel` / `order_error` / `api_error` (indexer.rs:173-231, 253-258) move it
+  unchanged; only `fully_filled()` and the manager's own timeout carry nothing. -/
+
+/-- The `ExecutionInstrumentMap` of this manager (`ExecutionInstrumentMap::new`, map.rs:32-51) in the
+vocabulary of the C04 model: instrument / asset index `i` ↔ exchange name `i` for the configured
+ones (the identity the header of this file announces; the harness offsets the indices and undoes
+the offset when printing). The exchange id of the manager's exchange is the same number as its index. -/
+def Cfg.emap (c : Cfg) : ExecMap.EMap :=
+  ExecMap.EMap.new ⟨c.exchange, c.exchange⟩
+    ((List.range c.nAssets).map fun a => (a, a)) ((List.range c.nInstr).map fun i => (i, i))
+
+/-- `OrderEvent<RequestOpen | RequestCancel, ExchangeId, &InstrumentNameExchange>`: what
+`client.open_order` / `client.cancel_order` is called with. `exchange` is an exchange ID and
+`instrument` an exchange NAME; `body` = the request's state (`RequestOpen` static fields, or the
+`RequestCancel { id }`), cloned. -/
+structure Forwarded where
+  kind : Kind
+  exchange : Nat
+  instrument : Nat
+  strategy : Nat
+  cid : Nat
+  body : Nat
+  deriving DecidableEq, Repr
+
+/-- The client request built for `q` (manager.rs:246-251 / 261-266): `none` = `order_request`
+failed = the manager panics. The translation is the C04 model's `managerClientRequest`; strategy and
+client order id are cloned (`ExecMap.OKey` carries them as one opaque number: the client order id
+goes through it, the strategy is copied beside it). -/
+def forwardOf (c : Cfg) (q : ReqSpec) : Option Forwarded :=
+  match ExecMap.managerClientRequest c.emap ⟨⟨q.key.exchange, q.key.instrument, q.key.cid⟩, q.body⟩ with
+  | some r => some ⟨q.kind, r.key.exchange, r.key.instrument, q.key.strategy, r.key.cid, r.state⟩
+  | none => none
+
+/-- What one action makes the manager hand to its client: only an intake while running does. -/
+def forwarded (c : Cfg) (s : State) : Action → List Forwarded
+  | .intake q => if s.status ≠ .running then [] else (forwardOf c q).toList
+  | _ => []
+
+/-- Spec, from the property text ("attributed to the right exchange, instrument and order id" starts
+with asking the client about the right order): the client is asked about the manager's own exchange,
+the exchange name of exactly the request's instrument, the same strategy / client order id / request
+state. -/
+def specForward (c : Cfg) (q : ReqSpec) : Forwarded :=
+  ⟨q.kind, c.exchange, q.key.instrument, q.key.strategy, q.key.cid, q.body⟩
+
+/-- `Open::quantity_remaining(quantity).is_zero()` (manager.rs:381; state.rs:91-93). -/
+def nothingLeft (quantity filled : Rat) : Bool := quantity - filled == 0
+
+/-- The part of the scripted client's answer that is neither key, static field nor verdict:
+`id` = the `OrderId` of `Open` / `Cancelled` (and the tag of the text inside an error), `time` =
+`time_exchange`, `filled` = `Open.filled_quantity`, `exchange` = the exchange id inside
+`ConnectivityError::ExchangeOffline(_)`. -/
+structure Payload where
+  id : Nat := 0
+  time : Nat := 0
+  filled : Rat := 0
+  exchange : Nat := 0
+  deriving DecidableEq, Repr, Inhabited
+
+/-- What an emitted account event carries besides key, static fields and verdict. -/
+inductive Detail
+  /-- `fully_filled()`, `Connectivity(Timeout)`, `RateLimit`, `OrderAlreadyCancelled`, `OrderAlreadyFullyFilled` -/
+  | none
+  /-- `OrderState::active(Open { id, time_exchange, filled_quantity })` -/
+  | opened (id time : Nat) (filled : Rat)
+  /-- `Ok(Cancelled { id, time_exchange })` -/
+  | cancelled (id time : Nat)
+  /-- the text inside `OrderRejected` / `InstrumentInvalid` / `AssetInvalid` / `BalanceInsufficient` / `Socket` -/
+  | message (m : Nat)
+  /-- `ConnectivityError::ExchangeOffline(exchange)` -/
+  | offlineAt (exchange : Nat)
+  deriving DecidableEq, Repr
+
+/-- Payload of the event (if there is one: see `eventOf`) for a completed `RequestFuture`:
+`process_open_response` keeps `Open` as it is unless nothing is left to fill (manager.rs:380-384),
+`order_response_cancel` keeps `Cancelled` (indexer.rs:180-181), `order_error` / `api_error` keep the
+text and the exchange of an error (indexer.rs:211-231, 253-258); the timeout events are built from
+the request alone (manager.rs:349-361, 399-416). -/
+def detailOf (q : ReqSpec) (p : Payload) : Fate → Detail
+  | .timeout => .none
+  | .response =>
+    match q.script.reply with
+    | .ok =>
+      match q.kind with
+      | .open => if q.script.fills then .none else .opened p.id p.time p.filled
+      | .cancel => .cancelled p.id p.time
+    | .rejected => .message p.id
+    | .invalidIns _ => .message p.id
+    | .assetInvalid _ => .message p.id
+    | .balanceInsufficient _ => .message p.id
+    | .connectivity .socket => .message p.id
+    | .connectivity .offline => .offlineAt p.exchange
+    | .connectivity .timeout => .none
+    | .nameless _ => .none
+
+/-- Spec ("the exchange client's own response"): whatever the client put into its answer is what
+the event carries — the order id / exchange time / filled quantity of an accepted open (an accepted
+open with nothing left to fill is reported fully filled and carries nothing), the order id / exchange
+time of a confirmed cancel, the text or exchange of an error; a timeout failure carries nothing of
+the client's. -/
+def specDetail (q : ReqSpec) (p : Payload) : Fate → Detail
+  | .timeout => .none
+  | .response =>
+    match q.script.reply, q.kind with
+    | .ok, .open => if q.script.fills then .none else .opened p.id p.time p.filled
+    | .ok, .cancel => .cancelled p.id p.time
+    | .connectivity .timeout, _ => .none
+    | .connectivity .offline, _ => .offlineAt p.exchange
+    | .nameless _, _ => .none
+    | _, _ => .message p.id
 
 end BarterModel.ExecManager
